@@ -234,4 +234,65 @@ theorem encode_struct (h : Header) (data : Bytes) (hb : Bytes) (henc : h.encode 
   have : hb.take 10 = hb := by rw [← hhb]; exact List.take_length
   simp [this, hhb]
 
+/-- what `_split_blocks` is: the list of data chunks the message is cut into -/
+def dataBlocks (body : Bytes) : List Bytes := if body.length = 0 then [body] else chunks 244 body
+
+theorem split_eq_c (h : Header) (body : Bytes) (c : Bool) :
+    split h body c = number h c (dataBlocks body).length 0 (dataBlocks body) := by
+  simp only [split, BlockFmt.secsiBlockSize, dataBlocks]
+  have : ¬ ((244 : Int) = -1) := by decide
+  simp [this]
+
+theorem split_eq (h : Header) (body : Bytes) :
+    split h body = number h true (dataBlocks body).length 0 (dataBlocks body) := split_eq_c h body true
+
+theorem dataBlocks_small (data : Bytes) (hlen : data.length ≤ 244) : dataBlocks data = [data] := by
+  unfold dataBlocks
+  split
+  · rfl
+  · rename_i h0
+    have hd' : data ≠ [] := by intro c; apply h0; rw [c]; rfl
+    rw [chunks_cons 244 (by decide) data hd', List.take_of_length_le hlen, List.drop_of_length_le hlen, chunks_nil]
+
+/-- **Split, all body lengths.**  The blocks' data concatenate to the body; there are `max 1 ⌈len/244⌉` of them; none
+carries more than 244 bytes; block `j` (0-based) is numbered `j+1`, carries the end bit iff it is the last, and has every
+other header field of the message header. -/
+theorem split_facts (h : Header) (body : Bytes) :
+    ((split h body).map (·.data)).flatten = body
+    ∧ (split h body).length = max 1 ((body.length + 243) / 244)
+    ∧ (∀ b ∈ split h body, b.data.length ≤ 244)
+    ∧ (∀ j, j < (split h body).length → ((split h body)[j]?).map (·.header) =
+        some { h with block := ((j + 1 : Nat) : Int), last_block := decide (j + 1 = (split h body).length) }) := by
+  rw [split_eq]
+  have hlen : (number h true (dataBlocks body).length 0 (dataBlocks body)).length = (dataBlocks body).length := number_length ..
+  refine ⟨?_, ?_, ?_, ?_⟩
+  · rw [number_data]
+    unfold dataBlocks
+    split
+    · rename_i h0; have : body = [] := List.length_eq_zero_iff.mp h0; subst this; rfl
+    · exact chunks_flatten 244 (by decide) _ _ (Nat.le_refl _)
+  · rw [hlen]
+    unfold dataBlocks
+    split
+    · rename_i h0; rw [h0]; rfl
+    · rename_i h0
+      rw [chunks_length 244 (by decide) _ _ (Nat.le_refl _)]
+      have : 1 ≤ (body.length + 244 - 1) / 244 := by
+        apply (Nat.le_div_iff_mul_le (by decide)).mpr; omega
+      have e : body.length + 244 - 1 = body.length + 243 := by omega
+      rw [e] at this ⊢
+      omega
+  · intro b hb
+    have hd : b.data ∈ (number h true (dataBlocks body).length 0 (dataBlocks body)).map (·.data) := List.mem_map_of_mem hb
+    rw [number_data] at hd
+    unfold dataBlocks at hd
+    split at hd
+    · rename_i h0; simp at hd; rw [hd]; omega
+    · exact (chunks_bound 244 (by decide) _ _ (Nat.le_refl _) _ hd).2
+  · intro j hj
+    rw [hlen] at hj ⊢
+    rw [number_get h true _ 0 _ j hj]
+    simp
+
+
 end SecsModel.Proofs.SecsI
